@@ -200,16 +200,22 @@ def _u10_from_bulk_rate_point(
 
         if direction_iteration:
             wind_guess = (u10, direction, "u10")
-            _, new_direction = _total_stress_point(
-                roughness_memory[0],
-                variance_density,
-                wind_guess,
-                depth,
-                wind_source_term_function,
-                tail_stress_parametrization_function,
-                spectral_grid,
-                parameters,
-            )
+            try:
+                _, new_direction = _total_stress_point(
+                    roughness_memory[0],
+                    variance_density,
+                    wind_guess,
+                    depth,
+                    wind_source_term_function,
+                    tail_stress_parametrization_function,
+                    spectral_grid,
+                    parameters,
+                )
+            except:
+                # The stress evaluation can fail (e.g. no convergence in the tail
+                # stress) - report a missing value like for a failed inversion.
+                u10 = np.nan
+                break
 
             direction_delta = (new_direction - direction + 180) % 360 - 180
 
